@@ -1,6 +1,7 @@
 (* C17 - Trajectory accessors all read the same array consistently; sample-index look-ups. *)
 From Coq Require Import ZArith QArith Qcanon List.
 From Verif Require Import Num Units Trajectory TrajectoryFacts.
+From Verif Require Import ReactionText Enums EnumFacts.
 Open Scope Qc_scope.
 
 Theorem C17_point_is_direct_index : forall T s n c,
@@ -63,6 +64,12 @@ Print Assumptions C17_closest.
 Theorem C17_closest_none : forall ts t, closest ts t = None -> ts = [].
 Proof. exact closest_none. Qed.
 Print Assumptions C17_closest_none.
+
+(* string enumerations (Model/Enums.v, re-read from /repo's Python and C++ source on every run by harness/translate_enums.py) *)
+(* the look-up policies get_sample_index accepts are exactly closest, supeq and infeq *)
+Theorem C17_lookup_policies : same_set code_lookup_policies spec_lookup = true.
+Proof. vm_compute. reflexivity. Qed.
+Print Assumptions C17_lookup_policies.
 
 (* non-vacuity *)
 Definition ex_T : traj := {| tN := 2; tS := 2; tC := 3; tdata := map QcZ [0;1;2;3;4;5;6;7;8;9;10;11]%Z; tunits := default_usys |}.
